@@ -275,6 +275,9 @@ pub struct SimChain {
     /// (n, f): once an outage has been seen and is over, the n-th successful RPC from then on is
     /// the start of another outage of f failed calls.
     pub second_outage: Option<(u64, u64)>,
+    /// (absolute RPC index, code): that call is answered with this JSON-RPC error whatever the state is
+    /// (code 0: a successful reply whose result is not of the expected type).
+    pub rpc_override: Option<(u64, i32)>,
     pub first_outage_seen: bool,
     pub src_count: u64,
     /// Block source calls with index in [a, b) fail with a transient error.
@@ -319,6 +322,7 @@ impl SimChain {
             rpc_down_from: None,
             rpc_down_failures_left: None,
             second_outage: None,
+            rpc_override: None,
             first_outage_seen: false,
             src_count: 0,
             src_fail: None,
@@ -641,6 +645,22 @@ impl SimChain {
                 }
             }
             return Err(RpcFailure::Transport);
+        }
+        if let Some((at, code)) = self.rpc_override {
+            if at == idx {
+                self.rpc_override = None;
+                let txid = match method {
+                    "sendrawtransaction" => params
+                        .get(0)
+                        .and_then(|v| v.as_str())
+                        .and_then(|s| hex::decode(s).ok())
+                        .and_then(|b| bitcoin::consensus::deserialize::<Transaction>(&b).ok())
+                        .map(|t| t.compute_txid()),
+                    _ => txid_param(params),
+                };
+                self.rpc_log.push(RpcRecord { method: method.to_owned(), txid, verdict: format!("injected:{code}"), node_height });
+                return if code == 0 { Ok(json!({"unexpected": ["shape", 1]})) } else { Err(RpcFailure::Rpc(code, "injected by the harness".into())) };
+            }
         }
         match method {
             "sendrawtransaction" => {
